@@ -168,6 +168,10 @@ type plan struct {
 	Timeout     time.Duration `json:"timeout"`
 	ParentAfter time.Duration `json:"parent_deadline_after,omitempty"` // 0 = caller has no deadline
 	Exempt      string        `json:"exempt,omitempty"`                // "" | websocket | sse
+	// InCopy (mode block, action Pos is a write): the chunk is written with io.Copy(w, reader) and the
+	// reader expires the context and blocks in the MIDDLE of the stream - a writer that offers
+	// io.ReaderFrom is inside that one call while the deadline fires and the wrapper has to return.
+	InCopy bool `json:"in_copy,omitempty"`
 }
 
 var statusPool = []int{200, 201, 202, 301, 400, 403, 404, 418, 429, 500, 502, 503, 599}
@@ -411,20 +415,21 @@ type restExec struct {
 	patience     time.Duration
 
 	// written by the work goroutine before close(workDone), read after <-workDone
-	started      bool
-	t1           time.Time
-	seenDl       time.Time
-	seenOk       bool
-	sameWriter   bool
-	sameCtx      bool
-	ctxErrAfter  string // ctx.Err() seen by the work right after an inline cancel
-	evs          []workEv
-	workRetS     uint64
-	workPanicS   uint64
-	blockTimeout bool
-	blockKind    string
-	lateOK       int
-	lateRejected int
+	started                bool
+	t1                     time.Time
+	seenDl                 time.Time
+	seenOk                 bool
+	sameWriter             bool
+	sameCtx                bool
+	ctxErrAfter            string // ctx.Err() seen by the work right after an inline cancel
+	evs                    []workEv
+	workRetS               uint64
+	workPanicS             uint64
+	blockTimeout           bool
+	blockKind              string
+	lateOK                 int
+	lateRejected           int
+	copiesWithExpiryInside int
 
 	// written by the calling goroutine
 	t0, tRet time.Time
@@ -480,6 +485,43 @@ func (x *restExec) expire(ctx context.Context) {
 	}
 }
 
+// midCopyReader hands out the first half of data, then expires the context the way the plan says
+// (mode block: cancel, then wait until the wrapper has returned), then the rest.
+type midCopyReader struct {
+	x     *restExec
+	ctx   context.Context
+	data  []byte
+	state int
+}
+
+func (m *midCopyReader) Read(p []byte) (int, error) {
+	switch m.state {
+	case 0:
+		m.state = 1
+		n := copy(p, m.data[:len(m.data)/2])
+		m.data = m.data[n:]
+		if n > 0 {
+			return n, nil
+		}
+		fallthrough
+	case 1:
+		m.state = 2
+		m.x.expire(m.ctx)
+		n := copy(p, m.data)
+		m.data = m.data[n:]
+		if n > 0 {
+			return n, nil
+		}
+		return 0, io.EOF
+	}
+	if len(m.data) > 0 {
+		n := copy(p, m.data)
+		m.data = m.data[n:]
+		return n, nil
+	}
+	return 0, io.EOF
+}
+
 func (x *restExec) serve(w http.ResponseWriter, r *http.Request) {
 	defer close(x.workDone)
 	x.started = true
@@ -492,7 +534,8 @@ func (x *restExec) serve(w http.ResponseWriter, r *http.Request) {
 	x.sameCtx = ctx == x.parent
 	expired := false
 	for i, a := range x.sc.Actions {
-		if x.pl.Pos == i {
+		inCopy := x.pl.InCopy && x.pl.Pos == i && a.K == "write"
+		if x.pl.Pos == i && !inCopy {
 			x.expire(ctx)
 			expired = true
 		}
@@ -505,11 +548,18 @@ func (x *restExec) serve(w http.ResponseWriter, r *http.Request) {
 		case "status":
 			w.WriteHeader(a.Code)
 		case "write":
-			_, err := w.Write([]byte(a.Chunk))
+			var err error
+			if inCopy {
+				_, err = io.Copy(w, &midCopyReader{x: x, ctx: ctx, data: []byte(a.Chunk)})
+				expired = true
+				x.copiesWithExpiryInside++
+			} else {
+				_, err = w.Write([]byte(a.Chunk))
+			}
 			if err != nil {
 				ev.Err = err.Error()
 			}
-			if expired && (x.pl.Mode == "block" || x.pl.Mode == "timer-block") {
+			if expired && !inCopy && (x.pl.Mode == "block" || x.pl.Mode == "timer-block") {
 				if err != nil {
 					x.lateRejected++
 				} else {
@@ -892,6 +942,7 @@ func (x *restExec) evaluate(rp reporter) verdict {
 		}
 	}
 	c.Obs("late_write_rejected", int64(x.lateRejected))
+	c.Obs("rest_io_copy_with_expiry_inside_the_stream", int64(x.copiesWithExpiryInside))
 	c.Obs("late_write_accepted_discarded", int64(x.lateOK))
 	if x.rec.stall != nil {
 		select {
@@ -1030,6 +1081,10 @@ func restCancelCase(c *kit.Case) {
 		add("concurrent", pos)
 		add("block", pos)
 		add("stall", pos)
+		if pos < n && sc.Actions[pos].K == "write" {
+			add("block", pos)
+			plans[len(plans)-1].InCopy = true
+		}
 	}
 	evals := int64(0)
 	kit.WithLabel(c.ID, func() {
